@@ -996,6 +996,12 @@ impl Runtime for Sched {
             return;
         }
         let _u = Untrack::new();
+        if me < MAXT {
+            // a plain read through a shared pointer is a memory access of its
+            // own: another thread may run (and free the target) between the
+            // load of the pointer and this dereference
+            self.managed_point(me, PointKind::Normal, "deref", ptr);
+        }
         let mut g = self.lock();
         if g.check_freed(ptr, bytes, "deref") {
             if me == SEQ {
